@@ -16,8 +16,8 @@ pub static DEF: PropDef = PropDef {
     level: "exploration",
     rule: "each case: a random conformant tree with known- and unknown-size masters interleaved (and random Full collapsing) is turned into a call history, truncated at a random point (so masters may be left open) and optionally ended with flush(); the destination is a recording sink and is inspected after every call. The monitor keeps its own shadow stack of open masters from the call history. Checks: (1) at every element/Full/End call that returned Ok while the shadow stack holds no known-size master, the destination content must be walked completely and exactly by the reference header decoder guided by the partial tree of tags accepted so far (open unknown-size masters included); (2) while a known-size master is open the destination length does not change; (3) after flush()/into_inner() the destination decodes to the whole tree with every master closed and nothing left over; (4) destination content only ever grows. distinct = (tree fingerprint, sequence of shadow-stack shapes (K/U strings) at observation points) plus each shape sequence by itself; non-trivial iff some observation point had depth >= 2 or the history was cut with masters open.",
     assumptions: &["the sink implements only io::Write, so bytes handed over cannot be retracted physically; the check is on completeness and timing", "unknown-size masters are never presented as Full (the writer ignores children there; outside C10's statement)"],
-    cases_quick: 4000,
-    cases_thorough: 200_000,
+    cases_quick: 200_000,
+    cases_thorough: 2_000_000,
     floors: &[("complete_prefix_checks", 5000), ("held_back_checks", 3000), ("distinct_nontrivial", 200), ("final_decodes", 2000)],
     exhaustive_note: None,
     run,
